@@ -236,7 +236,7 @@ fn c10(cx: &RunCtx) -> Verdict {
         }
     }
     // random: up to 8 actors, counters up to 2^63, near-equal pairs
-    let nrand = if cx.thorough { 3_000_000 } else { 150_000 };
+    let nrand = if cx.thorough { 3_000_000 } else { 600_000 };
     let nrand = (nrand as f64 * cx.scale) as u64;
     let per = nrand / cx.threads as u64 + 1;
     let parts: Vec<(u64, Vec<Finding>, HashSet<u64>, Vec<serde_json::Value>)> = std::thread::scope(|sc| {
@@ -459,13 +459,13 @@ fn c14(cx: &RunCtx) -> Verdict {
             }
         }
     }
-    let stride = if cx.thorough { 1 } else { 7 };
+    let stride = if cx.thorough { 1 } else { 3 };
     let offset = (cx.seed % stride as u64) as usize;
     let nids = ids.len();
     let ids = &ids;
     let threads = cx.threads;
     let seed = cx.seed;
-    let nrand = ((if cx.thorough { 4_000_000.0 } else { 120_000.0 }) * cx.scale) as u64;
+    let nrand = ((if cx.thorough { 4_000_000.0 } else { 500_000.0 }) * cx.scale) as u64;
     let parts: Vec<(u64, u64, Vec<Finding>, Vec<serde_json::Value>)> = std::thread::scope(|sc| {
         let hs: Vec<_> = (0..threads)
             .map(|t| {
@@ -995,7 +995,7 @@ fn rr_behavioural(seed: u64, n: u64, st: &mut RrStats) {
 
 fn c18(cx: &RunCtx, known: &Known) -> Verdict {
     let t0 = Instant::now();
-    let n = ((if cx.thorough { 40_000.0 } else { 1500.0 }) * cx.scale) as u64;
+    let n = ((if cx.thorough { 40_000.0 } else { 4000.0 }) * cx.scale) as u64;
     let mut tot = RrStats::default();
     let mut per = vec![];
     macro_rules! go {
